@@ -99,6 +99,9 @@ type Config struct {
 	Signers []string // subset of legacy, cosig, cosig2 (default: legacy, cosig)
 	// Wrap optionally wraps the persistence handed to the witness.
 	Wrap func(persistence.LogStatePersistence) persistence.LogStatePersistence
+	// DrvSetup is called on the wrapping SQL driver before the store is
+	// initialised (so that Init's operations are visible to hooks).
+	DrvSetup func(*drvwrap.Driver)
 	// IDOverride lets a check register a log under a hand-picked ID.
 	IDOverride map[string]string
 }
@@ -157,6 +160,9 @@ func NewEnv(u *uni.U, cfg Config) *Env {
 			dsn = strings.TrimPrefix(cfg.Store, "file:")
 		}
 		e.Drv = drvwrap.New(&sqlite3.SQLiteDriver{})
+		if cfg.DrvSetup != nil {
+			cfg.DrvSetup(e.Drv)
+		}
 		e.DB = e.Drv.OpenDB(dsn)
 		// As cmd/omniwitness/monolith.go:134-135.
 		e.DB.SetMaxOpenConns(1)
